@@ -8,6 +8,7 @@ use ezpz_verif_harness::gen_sys::SHAPES;
 use ezpz_verif_harness::oracle::*;
 use ezpz_verif_harness::planted::*;
 use ezpz_verif_harness::rng::Rng;
+use kcl_ezpz::verif_hooks as vh;
 use kcl_ezpz::*;
 
 fn shift(c: &Constraint, map: &[u32]) -> Constraint {
@@ -30,6 +31,8 @@ fn main() {
     let mut rng = Rng::new(seed);
     let mut out: Vec<Violation> = Vec::new();
     let (mut unions, mut groups_total, mut max_vars, mut skipped_group_fail) = (0usize, 0usize, 0usize, 0usize);
+    let mut residual_unions = 0usize;
+    let mut off_origin_skipped = 0usize;
     for u in 0..n {
         let ng = if u % 10 == 9 { rng.range(50.min(max_groups), max_groups) } else { rng.range(2, 8.min(max_groups)) };
         // groups that solve on their own
@@ -59,6 +62,14 @@ fn main() {
                 }
             };
             if g.reqs.is_empty() { continue; }
+            // groups drawn far away from the origin are left out here: the step-size test is relative to
+            // the largest coordinate of the WHOLE sketch (step_test_is_global, known finding F17), so a
+            // far-away group loosens the test for every other group; that effect has its own replay
+            // (`repro finding F17-...`) and would otherwise drown everything else this oracle looks for
+            if g.guesses.iter().any(|(_, v)| v.abs() > 20.0 * g.scale.max(1.0)) || g.planted.as_ref().map(|xs| xs.iter().any(|v| v.abs() > 20.0 * g.scale.max(1.0))).unwrap_or(false) {
+                off_origin_skipped += 1;
+                continue;
+            }
             // one priority level: the property is about variable-disjoint groups, not about levels
             let mut g = g;
             g.reqs = g.reqs.iter().map(|r| ConstraintRequest::highest_priority(*r.constraint())).collect();
@@ -113,7 +124,46 @@ fn main() {
                 // solution reached from a collapsed guess) then exhausts the iteration cap although it
                 // meets the residual test on its own after a dozen rounds
                 let stuck = matches!(e.error, NonLinearSystemError::DidNotConverge) && groups.iter().any(|g| g.1.is_unsatisfied());
-                bad(format!("every group solves alone but the union fails: {:?}", e.error), if drift { "drift-on-inconsistent-rank-deficient" } else if stuck { "union-runs-out-of-iterations-beside-an-inconsistent-part" } else { "union-fails" });
+                // the known findings F16 / F17 explain a failure of the union by the presence of a group that
+                // is inconsistent on its own.  That explanation is only accepted when it is the cause: the
+                // union of the REMAINING groups (those fully satisfied alone) must solve.  If it does not,
+                // the failure has another cause and is reported as such.
+                let mut explained = drift || stuck;
+                if explained {
+                    let keep: Vec<ConstraintRequest> = tagged.iter().filter(|t| !groups[t.0].1.is_unsatisfied()).map(|t| t.2).collect();
+                    residual_unions += 1;
+                    if !keep.is_empty() {
+                        if let Err(e2) = solve(&keep, usys.guesses.clone(), Config::default()) {
+                            explained = false;
+                            // the finest split: variable-connected parts of the remaining requests.  When one
+                            // of them fails on its own, the premise "each group solves on its own" only held
+                            // for the coarser split (a singular start - collapsed guesses - inside one group,
+                            // whose outcome depends on the numbering: known finding F23); otherwise the
+                            // failure is a genuine interaction between independent parts.
+                            let n = usys.guesses.len();
+                            let mut parent: Vec<usize> = (0..n).collect();
+                            fn find(p: &mut Vec<usize>, i: usize) -> usize { if p[i] != i { let r = find(p, p[i]); p[i] = r; } p[i] }
+                            for r in &keep {
+                                let ids: Vec<usize> = vh::nonzeroes(r.constraint()).iter().flatten().map(|i| *i as usize).filter(|i| *i < n).collect();
+                                for w in ids.windows(2) { let (a, b) = (find(&mut parent, w[0]), find(&mut parent, w[1])); parent[a] = b; }
+                            }
+                            let mut roots: Vec<usize> = keep.iter().filter_map(|r| vh::nonzeroes(r.constraint()).iter().flatten().map(|i| *i as usize).find(|i| *i < n)).map(|i| find(&mut parent, i)).collect();
+                            roots.sort(); roots.dedup();
+                            let a_part_fails = roots.iter().any(|root| {
+                                let part: Vec<ConstraintRequest> = keep.iter().filter(|r| vh::nonzeroes(r.constraint()).iter().flatten().any(|i| (*i as usize) < n && find(&mut parent, *i as usize) == *root)).copied().collect();
+                                !part.is_empty() && solve(&part, usys.guesses.clone(), Config::default()).is_err()
+                            });
+                            if a_part_fails {
+                                bad(format!("the union fails ({:?}); every generated group solves alone, but one variable-connected PART of a group fails on its own", e.error), "union-fails-a-part-fails-alone");
+                            } else {
+                                bad(format!("the union fails ({:?}) and still fails ({:?}) when every group that is inconsistent on its own is left out, although every variable-connected part of the rest solves alone", e.error, e2.error), "union-fails-without-the-inconsistent-groups");
+                            }
+                        }
+                    }
+                }
+                if explained || !(drift || stuck) {
+                    bad(format!("every group solves alone but the union fails: {:?}", e.error), if drift { "drift-on-inconsistent-rank-deficient" } else if stuck { "union-runs-out-of-iterations-beside-an-inconsistent-part" } else { "union-fails" });
+                }
             }
             Ok(o) => {
                 // verdicts per group
@@ -159,5 +209,5 @@ fn main() {
             println!("VIOLATION {}", v.to_json());
         }
     }
-    println!("STATS {{\"systems\": {unions}, \"groups\": {groups_total}, \"max_variables_in_a_union\": {max_vars}, \"candidate_groups_that_do_not_solve_alone\": {skipped_group_fail}, \"violations\": {}}}", out.len());
+    println!("STATS {{\"systems\": {unions}, \"groups\": {groups_total}, \"max_variables_in_a_union\": {max_vars}, \"candidate_groups_that_do_not_solve_alone\": {skipped_group_fail}, \"failed_unions_re_solved_without_their_inconsistent_groups\": {residual_unions}, \"off_origin_groups_left_out\": {off_origin_skipped}, \"violations\": {}}}", out.len());
 }
